@@ -177,7 +177,10 @@ func newAdvWorld(name, storage string, wrap ...bool) *advWorld {
 		panic(err)
 	}
 	// the documented extension point: the application's own functions around the library's
+	// ... and an option list with unset (nil) entries, as an application that fills optional options
+	// conditionally produces: nil entries are skipped, nothing after them is lost
 	w.lwOwn, err = world.NewLW(w.s, world.LWCfg{
+		Options: append(append([]nodeenrollment.Option{nil}, w.s.Opts()...), nil),
 		FetchFn: func(ctx context.Context, st nodeenrollment.Storage, req *types.FetchNodeCredentialsRequest, opt ...nodeenrollment.Option) (*types.FetchNodeCredentialsResponse, error) {
 			return registration.FetchNodeCredentials(ctx, st, req, opt...)
 		},
